@@ -32,6 +32,11 @@ THEOREMS = [
     "GeoVerif.Geom.formatLength_refuse",
     "GeoVerif.Geom.setValues_aligned",
     "GeoVerif.Geom.run_consistent",
+    "GeoVerif.Geom.mc_aligned",
+    "GeoVerif.Geom.mc_survivors",
+    "GeoVerif.Geom.mc_cells_spec",
+    "GeoVerif.Geom.mc_refuse",
+    "GeoVerif.Geom.rv_eq_maskedCopy",
 ]
 RULE = (
     "random Points/Curve/Surface with 1-9 vertices (some used by no cell), vertex and cell float data; op sequences of "
@@ -42,17 +47,21 @@ RULE = (
 ASSUMPTIONS = [
     "data entries and coordinates are opaque tokens (no float arithmetic is involved in C07)",
     "NumPy fancy indexing / np.delete semantics are exercised against the model, not proved",
-    "masked copies are covered by C12/C13 correspondence, not by this model",
+    "masked copies of Points/Curve/Surface are modelled (maskedCopy); masked copies of grids and surveys are covered by C12/C13/C20",
 ]
 LEVEL_TEXT = (
     "Lean theorems for all geometries, all index lists and all operation sequences: after remove_vertices/remove_cells/"
     "value assignment every data array has one entry per vertex/cell, cells reference existing vertices (rv_aligned, "
     "rc_aligned, setValues_aligned, run_consistent), survivors keep coordinates and values (rv_survivors), surviving "
     "cells connect the same coordinates (rv_cells_same_coords, rv_cells_spec), shorter arrays are padded and longer "
-    "refused (formatLength_*). Tied to the code by differential runs of the real objects against the executable model."
+    "refused (formatLength_*). Masked copies: the copy holds the selected vertices with their values at their rank, exactly the "
+    "cells all of whose vertices are selected, re-indexed onto the same coordinates, with their cell values; it is aligned, a mask "
+    "of the wrong length is refused, and remove_vertices is the masked copy by the complement applied in place (mc_aligned, "
+    "mc_survivors, mc_cells_spec, mc_refuse, rv_eq_maskedCopy). Tied to the code by differential runs of the real objects "
+    "against the executable model."
 )
 LEVEL_NOTE = "Trusted: Lean kernel, harness, NumPy/h5py. Modelled: np.delete/boolean-mask semantics (validated by the correspondence)."
-TECHNIQUE = "Lean 4 invariant proof over an executable model of remove_vertices/remove_cells/format_length + differential correspondence"
+TECHNIQUE = "Lean 4 invariant proof over an executable model of remove_vertices/remove_cells/format_length/masked copy + differential correspondence"
 
 
 def tok(x):
@@ -93,7 +102,11 @@ def gen_case(rng):
                 continue
             nm = rng.choice(names)
             ops.append(["set", nm, rng.choice([-2, -1, 0, 0, 0, 1]), rng.randrange(1000)])
-        elif r < 0.94:
+        elif r < 0.93:
+            # a masked copy: a random selection of the current vertices, now and then all, none, or a mask of the wrong length
+            q = rng.random()
+            ops.append(["copyMask", rng.randrange(1 << 16), "all" if q < 0.1 else "none" if q < 0.2 else "short" if q < 0.3 else "bits"])
+        elif r < 0.95:
             ops.append(["reopen"])
         elif r < 0.97:
             ops.append(["readLazy"])          # read the lazily derived arrays (parts of a curve): they are cached on the object
@@ -240,6 +253,36 @@ def run_case(ctx: Ctx, case, path):
             if "read_error" in before:
                 failures += oracle(before, truth_v, truth_c, tag)
                 break
+            if op[0] == "copyMask":
+                nv = len(before["verts"])
+                bits = [bool((op[1] >> i) & 1) for i in range(nv)]
+                mask = {"all": [True] * nv, "none": [False] * nv, "short": bits[:-1] if nv else [True], "bits": bits}[op[2]]
+                lines.append({"m": "geom", "op": "maskCopy", "mask": mask})
+                cp = None
+                try:
+                    cp = obj.copy(mask=np.array(mask, dtype=bool))
+                    csnap = snapshot(cp)
+                except Exception as e:  # noqa: BLE001
+                    status = ERR.get(type(e).__name__, "other:" + type(e).__name__)
+                    csnap = before
+                if "read_error" in csnap:
+                    lines.pop()
+                    failures += oracle(csnap, truth_v, truth_c, tag + " (the copy)")
+                    break
+                expect.append(dict(csnap, status=status))
+                if status == "ok":
+                    # the copy is aligned like any object: same truth tables, keyed by vertex id
+                    failures += oracle(csnap, truth_v, truth_c, tag + " (the copy)")
+                    exp_ids = [v for v, b in zip(before["verts"], mask) if b]
+                    if csnap["verts"] != exp_ids:
+                        failures.append((f"masked copy has vertices {csnap['verts']}, selected {exp_ids} {tag}", "C07:copy-mask:vertices"))
+                    ctx.count("masked_copies")
+                    ws.remove_entity(cp)
+                del cp
+                after = snapshot(obj)
+                if after != before:
+                    failures.append((f"a masked copy changed its source: {before} -> {after} {tag}", "C07:copy-mask:source-changed"))
+                continue
             try:
                 if op[0] == "rmVerts":
                     lines.append({"m": "geom", "op": "rmVerts", "idx": op[1]})
